@@ -184,6 +184,9 @@ package tree
 //@   ensures[not-found-means-no-root] (result1 != nil && isErr(result1, db.ErrNotFound)) ==> rootLastIdx(t) == -1
 //@   ensures[never-the-syncers-inconsistency-error] plainErr(result1)
 //@   ensures[the-row-ranked-last] result1 == nil ==> rootLastIdx(t) >= 0 && result0.Index == rootLastIdx(t) && rootHas(t)[result0.Index] && result0.Hash == rootHash(t)[result0.Index]
+// a caller inside a transaction reads through that transaction (so that it sees the rows the transaction wrote); the
+// tree's own connection is used only when no querier is given
+//@   assert call:getLastRootWithTx old(tx) != nil ==> arg1 == old(tx)
 
 // getRoot() of the deposit contract for size = idx+1, written over the bits of idx (bit h of idx+1 is bitSucc(idx, h))
 //@ spec fn solRootI(branch []Hash, idx uint32, h int) Hash = ite(h <= 0, ZeroHash, ite(bitSucc(idx, h-1), H(branch[h-1], solRootI(branch, idx, h-1)), H(solRootI(branch, idx, h-1), zeroAt(h-1))))
